@@ -141,6 +141,17 @@ def impl_eval(case):
             why = f'decrypting returns PIN {back!r} ({st2})'
         return {'obs': f'ok {clear.hex()} {enc.hex()} {common.dotted(back or "")}' if st2 == 'ok' else st2, 'violation': why,
                 'tags': ['enc4tdes', f'keylen:{len(key) // 2}']}
+    if k == 'pair':
+        # TWO block objects alive at the same time (created one after the other, then serialised in the other order): each
+        # holds its own PIN, card number and fill
+        pin2, pan, pan2 = case['pin2'], case['pan'], case['pan2']
+        a0, b0 = pb.Iso0PinBlock(pin, card_number=pan), pb.Iso0PinBlock(pin2, card_number=pan2)
+        a4, b4 = pb.Iso4PinBlock(pin, random_value=case['rnd']), pb.Iso4PinBlock(pin2, random_value=case['rnd'] + 1)
+        got = (b0.to_bytes(), a0.to_bytes(), b4.to_bytes(), a4.to_bytes())
+        want = (spec_iso0(pin2, pan2), spec_iso0(pin, pan), spec_iso4(pin2, case['rnd'] + 1), spec_iso4(pin, case['rnd']))
+        if got != want:
+            why = 'two block objects alive at the same time do not each serialise their own PIN / card number / fill'
+        return {'obs': 'ok ' + got[1].hex() + ' ' + got[3].hex(), 'violation': why, 'tags': ['pair']}
     if k == 'iso4same':
         # ONE object stands for one block: serialising it twice, or encrypting it, uses the same fill
         key = case['key']
@@ -161,7 +172,7 @@ def impl_eval(case):
 
 
 def model_line(case):
-    if case['k'] == 'iso4same':
+    if case['k'] in ('iso4same', 'pair'):
         return None
     pin = common.dotted(case['pin'])
     if case['k'] == 'enc4tdes':
@@ -229,6 +240,9 @@ def explore(run, tier):
         if i % 4 == 0:
             cases.append({'k': 'enc4tdes', 'pin': digits(pl), 'rnd': rng.getrandbits(64) or 1, 'key': key})
             cases.append({'k': 'iso4same', 'pin': digits(pl), 'key': akey})
+    for i in range(40):
+        cases.append({'k': 'pair', 'pin': digits(4 + i % 9), 'pin2': digits(4 + (i + 3) % 9), 'pan': digits(13 + i % 7),
+                      'pan2': digits(13 + (i + 2) % 7), 'rnd': rng.getrandbits(63) + 1})
     # key components with a special structure — the DES weak and semi-weak keys, all-zero, all-one, odd-parity-adjusted
     # and not: a key is a key, every one of them encrypts (the reference DES has no notion of an unacceptable key)
     special = ['0101010101010101', 'fefefefefefefefe', 'e0e0e0e0f1f1f1f1', '1f1f1f1f0e0e0e0e', '01fe01fe01fe01fe',
